@@ -153,6 +153,34 @@ static void planar(vh::Out & out)
   }
 }
 
+// derivative matrices at generic angles against the closed forms (exact, and as coded with the identity leftover)
+static void smartgen(vh::Rng & r, vh::Out & out)
+{
+  auto u = [&]() {return (double)r.range(-1000000, 1000000) / 1000000.0;};
+  auto units = [](double v) {double x = std::fabs(v) * 1e12; return x < 2e9 ? (long long)std::llround(x) : 2000000000LL;};
+  double a = u() * 3.1, b = u() * (M_PI / 2 - 0.05), c = u() * 3.1;
+  if (r.coin(1, 6)) {a = 0;} if (r.coin(1, 6)) {b = 0;} if (r.coin(1, 6)) {c = 0;}
+  SmartRotation3D sr(a, b, c);
+  auto Rx = [](double t) {Eigen::Matrix3d m; m << 1, 0, 0, 0, std::cos(t), -std::sin(t), 0, std::sin(t), std::cos(t); return m;};
+  auto Ry = [](double t) {Eigen::Matrix3d m; m << std::cos(t), 0, std::sin(t), 0, 1, 0, -std::sin(t), 0, std::cos(t); return m;};
+  auto Rz = [](double t) {Eigen::Matrix3d m; m << std::cos(t), -std::sin(t), 0, std::sin(t), std::cos(t), 0, 0, 0, 1; return m;};
+  auto dRx = [](double t) {Eigen::Matrix3d m; m << 0, 0, 0, 0, -std::sin(t), -std::cos(t), 0, std::cos(t), -std::sin(t); return m;};
+  auto dRy = [](double t) {Eigen::Matrix3d m; m << -std::sin(t), 0, std::cos(t), 0, 0, 0, -std::cos(t), 0, -std::sin(t); return m;};
+  auto dRz = [](double t) {Eigen::Matrix3d m; m << -std::sin(t), -std::cos(t), 0, std::cos(t), -std::sin(t), 0, 0, 0, 0; return m;};
+  Eigen::Matrix3d E0 = Eigen::Matrix3d::Zero(), E1 = E0, E2 = E0; E0(0, 0) = 1; E1(1, 1) = 1; E2(2, 2) = 1;
+  Eigen::Matrix3d ex[3] = {Rz(c) * Ry(b) * dRx(a), Rz(c) * dRy(b) * Rx(a), dRz(c) * Ry(b) * Rx(a)};
+  Eigen::Matrix3d co[3] = {Rz(c) * Ry(b) * (dRx(a) + E0), Rz(c) * (dRy(b) + E1) * Rx(a), (dRz(c) + E2) * Ry(b) * Rx(a)};
+  const Eigen::Matrix3d * got[3] = {&sr.dRdAngleAroundXAxis(), &sr.dRdAngleAroundYAxis(), &sr.dRdAngleAroundZAxis()};
+  Eigen::Vector3d T(u() * 10, u() * 10, u() * 10);
+  Eigen::Matrix3d dRT = sr.dRTdAngles(T);
+  double re = 0, rc = 0;
+  for (int k = 0; k < 3; ++k) {
+    re = std::max({re, (*got[k] - ex[k]).cwiseAbs().maxCoeff(), (dRT.col(k) - ex[k] * T).cwiseAbs().maxCoeff() / 10});
+    rc = std::max({rc, (*got[k] - co[k]).cwiseAbs().maxCoeff(), (dRT.col(k) - co[k] * T).cwiseAbs().maxCoeff() / 10});
+  }
+  out.put(vh::Ev("smartgen").i("resExact", units(re)).i("resCoded", units(rc)));
+}
+
 // generic (non-lattice) inputs: residuals of the consistency relations in units of 1e-12
 template<class S>
 static void generic(vh::Rng & r, vh::Out & out)
@@ -235,6 +263,14 @@ static void generic(vh::Rng & r, vh::Out & out)
 
 int main(int argc, char ** argv)
 {
+  if (argc == 5 && std::string(argv[1]) == "smartgen") {
+    vh::Rng r(std::strtoull(argv[2], nullptr, 10));
+    int n = std::atoi(argv[3]);
+    vh::Out out(argv[4]);
+    for (int k = 0; k < n; ++k) {if (k % 500 == 0) {out.put(vh::Ev("Reset"));} smartgen(r, out);}
+    std::printf("%lld\n", out.lines);
+    return 0;
+  }
   if (argc == 5 && std::string(argv[1]) == "generic") {
     vh::Rng r(std::strtoull(argv[2], nullptr, 10));
     int n = std::atoi(argv[3]);
